@@ -301,9 +301,28 @@ def key_of(w, ds, ed, bound=False):
         conv = W.bind(w, ds)
     rec = Recorder()
     key = make_cache_key(ds, hash=rec)
-    key_default = make_cache_key(ds)        # the call users make: default hash object
+    # the call users make - default hash object - observed by standing in for `hashlib` inside the cache module
+    import emsarray.operations.cache as cachemod
+    made = []
+
+    class _Shim:
+        def __getattr__(self, n):
+            return getattr(hashlib, n)
+
+        def blake2b(self, *a, **kw):
+            r = Recorder()
+            r.h = hashlib.blake2b(*a, **kw)
+            made.append(r)
+            return r
+    real = cachemod.hashlib
+    cachemod.hashlib = _Shim()
+    try:
+        key_default = make_cache_key(ds)
+    finally:
+        cachemod.hashlib = real
     import emsarray
-    return {"payloads": rec.payloads, "key": key, "key_default": key_default}, {"module": list(type(conv).__module__.encode()),
+    return {"payloads": rec.payloads, "key": key,
+            "default": {"key": key_default, "payloads": made[0].payloads if made else []}}, {"module": list(type(conv).__module__.encode()),
                                                      "classb": list(type(conv).__name__.encode()),
                                                      "version": list(emsarray.__version__.encode())}, type(conv).__name__
 
